@@ -2,7 +2,6 @@
 package c20
 
 import (
-	"verif/internal/metamodel"
 	"context"
 	"encoding/json"
 	"fmt"
@@ -13,6 +12,7 @@ import (
 	"strconv"
 	"strings"
 	"testing"
+	"verif/internal/metamodel"
 
 	"github.com/getkin/kin-openapi/openapi3"
 	"github.com/oasdiff/yaml"
@@ -177,11 +177,12 @@ func check(c Case) (o h.Outcome) {
 //
 // For every component kind K (and path items) and every position inside a K object where the
 // meta-model allows a reference, the skeleton document holds one K component P whose position refers
-//   self      back to P itself (an ancestor; of the wrong kind unless the position expects a K),
-//   aliased   the same, with a component A = {$ref: P} that is resolved before P,
-//   via-other to a component Q of the kind the position expects, which is itself a reference to P,
-//   interior  to the container just above the position,
-//   reached   the same as self, with an operation that refers to P.
+//
+//	self      back to P itself (an ancestor; of the wrong kind unless the position expects a K),
+//	aliased   the same, with a component A = {$ref: P} that is resolved before P,
+//	via-other to a component Q of the kind the position expects, which is itself a reference to P,
+//	interior  to the container just above the position,
+//	reached   the same as self, with an operation that refers to P.
 func enumerate(shard, nshards int, yield func(Case)) {
 	m := metamodel.V3
 	idx := 0
